@@ -519,7 +519,9 @@ def keys_cases(tier, rng):
     for name, g in base:
         g = _with_extra(g)
         for ci, (nk, ek) in enumerate(KEY_CONFIGS):
-            if tier == "quick" and name not in ("cp-anion", "kekule-benzene") and (ci + len(name)) % 3:
+            # quick: everything on the first two graphs, the empty-list configurations (5, 6, 7: "falsy means default" for the
+            # exact analysis, "empty means no label" for the estimate) on every graph, every third of the rest
+            if tier == "quick" and name not in ("cp-anion", "kekule-benzene") and ci not in (5, 6, 7) and (ci + len(name)) % 3:
                 continue
             out.append(dict(kind="keys", name="keys/%s/%d" % (name, ci), g=g, nk=nk, ek=ek))
     return out
@@ -649,6 +651,9 @@ def orbacc_cases(tier, rng):
     add("only-empty-members", [[]], [[], []])
     add("overlap-last-wins", [[1, 2], [2, 3]], [[1], [2, 3]])
     add("overlap-in-exact", [[1, 2, 3]], [[1, 2], [2, 3], [1]])
+    add("overlap-exact-decides", [[1, 2], [3]], [[1, 2], [2, 3]])         # node 2: last member wins -> 1/3 exact, first -> 2/3
+    add("overlap-approx-decides", [[1, 2], [2, 3]], [[1, 2], [3]])
+    add("overlap-three", [[1, 2, 3], [3, 4], [4, 1]], [[1], [2, 3], [4], [4, 3]])
     add("duplicate-member", [[1, 2], [1, 2], [3]], [[1, 2], [3]])
     add("duplicates-inside", [[1, 1, 2], [3]], [[2, 1], [3, 3]])
     add("id0-two-digit", [[0, 10], [9, 100]], [[0], [10], [9, 100]])
@@ -675,6 +680,11 @@ def orbacc_cases(tier, rng):
         else:
             A = [list(reversed(o)) for o in E]
             rng.shuffle(A)
+        if k % 5 == 4 and len(ids) >= 2:                # not partitions: a node repeated in another member of either list
+            A = [list(o) for o in A]
+            E = [list(o) for o in E]
+            rng.choice(A).append(rng.choice(ids))
+            rng.choice(E).append(rng.choice(ids))
         add("rand#%d/%d" % (k, mode), A, E)
     from synkit.Graph.Matcher.automorphism import Automorphism
     from synkit.Graph.Matcher.auto_est import AutoEst
@@ -682,6 +692,39 @@ def orbacc_cases(tier, rng):
         g = random_sym_graph(rng)
         G = GG.to_nx(g)
         add("graph#%d" % k, [sorted(o) for o in AutoEst(G, max_iter=rng.choice([0, 1, 10])).fit().orbits], [sorted(o) for o in Automorphism(G).orbits])
+    return out
+
+
+# ------------------------------------------------------------------ the remaining views of the two classes
+
+def views_cases(tier, rng):
+    """graphs (random, disconnected families, degenerate) with node subsets for AutoEst.components / orbit_components:
+    None, all nodes, a random subset, one component, a subset given with repetitions, the empty list, an unknown node"""
+    out = []
+    graphs = [(n, g) for n, g in families() if n in ("2tri", "3edges", "tri+path3+tri", "4isolated", "C4+K1_3", "cycle6", "star4", "mirror-path3")]
+    graphs.append(("single", _mk(1, [])))
+    graphs.append(("empty", {"nodes": [], "edges": []}))
+    graphs.append(("ids-9-10-100", GG.relabel(disjoint(path(2), _mk(1, [])), {1: 100, 2: 9, 3: 10})))
+    for k in range(25 if tier == "quick" else 300):
+        graphs.append(("rand#%d" % k, random_sym_graph(rng)))
+    for name, g in graphs:
+        ids = [n for n, _ in g["nodes"]]
+        subsets = [None, list(ids), []]
+        if ids:
+            subsets.append(sorted(rng.sample(ids, rng.randint(1, len(ids)))))
+            sub = rng.sample(ids, rng.randint(1, len(ids)))
+            subsets.append(sub + sub[:1])                              # a repetition
+            subsets.append([ids[0], max(ids) + 7])                     # an unknown node: ValueError
+            comp = {ids[0]}
+            grew = True
+            while grew:
+                grew = False
+                for u, v, _ in g["edges"]:
+                    if (u in comp) != (v in comp):
+                        comp |= {u, v}
+                        grew = True
+            subsets.append(sorted(comp))
+        out.append(dict(kind="views", name="views/" + name, g=g, subsets=subsets))
     return out
 
 
@@ -729,6 +772,7 @@ def gen_cases(tier, rng):
     cases += repeated_species_cases(tier, rng)
     cases += history_cases(tier, rng)
     cases += orbacc_cases(tier, rng)
+    cases += views_cases(tier, rng)
     # rule applications
     cases += hand_cases(tier)
     cases += corpus_cases(tier, rng)
